@@ -658,6 +658,46 @@ def gen_tmpseq(rng, uid):
   block = [['for', 0, loop[1], loop[2], loop[3], body]] if in_loop else body
   return {'uid': uid, 'stream': 'tmpseq', 'sigs': g.sigs, 'block': block}
 
+# ---- mixed if-expressions: one implicit branch, one explicitly sized branch, in both orders
+
+def gen_mixite(rng, uid):
+  """`(<implicit> if c else <explicit w bits>)` and the other order, met by a wider / equal / narrower explicitly
+  sized consumer (assignment target, BinOp / Compare operand, through a temporary, nested if-expression); the
+  condition is a 1-bit input so the all-0 / all-1 vectors drive it both ways"""
+  g = Gen(rng, uid, 'mixite', 0.0)
+  w = rng.choice([1, 2, 3, 4, 8])
+  cw = rng.choice([w, w, w + rng.choice([1, 4, 8]), w + 8, max(1, w - 1)])
+  sel = g.new_in(1); a = g.new_in(w); b = g.new_in(cw); o = g.new_out(cw); o1 = g.new_out(1)
+  SEL, A, B, O, O1 = ['sig', sel[0], 1], ['sig', a[0], w], ['sig', b[0], cw], ['sig', o[0], cw], ['sig', o1[0], 1]
+  top = (1 << w) - 1
+  block, pre = [], []
+  in_loop = rng.random() < 0.15
+  r = rng.random()
+  if in_loop and top >= 1: imp = ['lv', 0]
+  elif r < 0.75: imp = num(rng, rng.choice([0, 1, top, rng.randint(0, top)]))
+  else:
+    pre.append(['tasg', 1, num(rng, rng.randint(0, top))]); imp = ['tmp', 1]
+  ex = A if rng.random() < 0.7 else g.hard(w, 1)
+  cond = SEL if rng.random() < 0.7 else ['cmp', rng.choice(['eq', 'ne']), SEL, num(rng, rng.randint(0, 1))]
+  t, f = (imp, ex) if rng.random() < 0.6 else (ex, imp)
+  ite = ['ite', cond, t, f]
+  if rng.random() < 0.15: ite = ['ite', SEL, ite, ['ite', cond, ex, imp]] if rng.random() < 0.5 else ['ite', SEL, num(rng, 0), ite]
+  k = rng.random()
+  if k < 0.2:
+    pre.append(['tasg', 0, ite]); ite = ['tmp', 0]
+  k = rng.random()
+  if k < 0.3: use = ['asg', O, ite]
+  elif k < 0.65:
+    l, r2 = (B, ite) if rng.random() < 0.6 else (ite, B)
+    use = ['asg', O, ['bin', rng.choice(['add', 'sub', 'band', 'bor', 'bxor']), l, r2]]
+  elif k < 0.9:
+    l, r2 = (B, ite) if rng.random() < 0.6 else (ite, B)
+    use = ['asg', O1, ['cmp', rng.choice(list(CMPOP)), l, r2]]
+  else: use = ['ifs', ['cmp', 'eq', B, ite], [['asg', O, B]], []]
+  body = pre + [use]
+  block = [['for', 0, 0, min(top, 3) + 1, 1, body]] if in_loop and top >= 1 else body
+  return {'uid': uid, 'stream': 'mixite', 'sigs': g.sigs, 'block': block}
+
 # ---- labelled streams: one per known soundness hole of the checker (each is a parameterised witness)
 
 def gen_finding(rng, uid, which):
